@@ -131,6 +131,50 @@ theorem change_announced (o : Oracle V E) (e : Entry V E) (now : Int) :
   · intro v hv; unfold announceR; rw [emits_changed o e now v hv]; simp
   · intro x hx; unfold announceR; rw [emits_error o e now x hx]; simp
 
+/-! ### parameter callbacks -/
+
+/-- The `except` clause around the call of a parameter callback (regenerated from the source on every run) catches
+every outcome: a callback that returns, one that raises `TypeError`, one that raises any other `Exception`.  The
+callbacks run after the stores into the entry and before the dispatcher is told. -/
+theorem callbacks_all_caught :
+    (∀ oc, catches Frappy.Generated.C05.callbackCaught oc = true) ∧
+    Frappy.Generated.C05.callbacksAfterStores = true ∧ Frappy.Generated.C05.callbacksBeforeNotify = true := by
+  refine ⟨fun oc => ?_, by decide, by decide⟩
+  cases oc <;> decide
+
+/-- Replay reproduces the cache for ALL outcomes of ALL callbacks registered for the parameter, as long as the
+`except` clause catches every outcome (`callbacks_all_caught`). -/
+theorem replay_eq_cache_callbacks (o : Oracle V E) (ex : V → X) (h : ExportExact o ex) (caught : CbOutcome → Bool)
+    (hc : ∀ oc, caught oc = true) (e : Entry V E) (evs : List (CEv V E)) :
+    replay (e.ve.map ex) ((runC o caught e evs).msgs.map (fun m => m.ve.map ex)) = (runC o caught e evs).entry.ve.map ex := by
+  rw [runC_eq o caught hc]
+  exact replay_runR o ex h e _
+
+/-- A recovery from an error is announced whatever the callbacks do (under `callbacks_all_caught`). -/
+theorem recovery_announced_callbacks (o : Oracle V E) (caught : CbOutcome → Bool) (hc : ∀ oc, caught oc = true)
+    (e : Entry V E) (now : Int) (v : V) (cbs : List CbOutcome) (herr : e.readerror ≠ none) :
+    ∃ m, (announceC o caught e now (.val v) cbs).msg = some m ∧ m.ve = .val v := by
+  obtain ⟨x, hx⟩ := Option.ne_none_iff_exists'.1 herr
+  rw [announceC_eq o caught hc]
+  unfold announceR
+  rw [emits_recovery o e now v x hx]
+  simp [mkMsg]
+
+/-- The hypothesis is needed: if one outcome is not caught (e.g. only `TypeError` is), a callback ending that way
+makes the funnel store the new state without a message — a lost value and a lost recovery. -/
+theorem callback_escape_breaks (caught : CbOutcome → Bool) (oc : CbOutcome) (hesc : caught oc = false) :
+    (∃ (e : Entry Nat Nat) (evs : List (CEv Nat Nat)),
+      replay e.ve ((runC ⟨fun a b => a == b, .ok, .ok⟩ caught e evs).msgs.map (·.ve)) ≠
+        (runC ⟨fun a b => a == b, .ok, .ok⟩ caught e evs).entry.ve) ∧
+    (∃ (e : Entry Nat Nat), e.readerror ≠ none ∧
+      (announceC ⟨fun a b => a == b, .ok, .ok⟩ caught e 7 (.val e.value) [oc]).msg = none) := by
+  refine ⟨⟨⟨5, none, 1, 0⟩, [⟨7, .val 6, [oc]⟩], ?_⟩, ⟨⟨5, some 1, 1, 0⟩, by simp, ?_⟩⟩
+  · simp [runC, announceC, emits, changed, runCallbacks, hesc, replay, commit, storeValue, storeError, stamp, Entry.ve]
+  · simp [announceC, emits, changed, runCallbacks, hesc]
+
+/-- and catching `TypeError` only (the seeded change C05-m3) does leave `other` uncaught -/
+example : catches ["TypeError"] .other = false ∧ catches ["TypeError"] .typeError = true := by decide
+
 end sequential
 
 
